@@ -9,6 +9,7 @@
      cnt      Count()
      ck, cid  GetCurrentKey() (key, normalised item id)            - black box
      tc       item id at currentItemRef (0 nil, -1 vacated slot, -2 not observed) - white box (reflection, read only)
+     trk      ids of the items the B-tree reported to its ItemActionTracker as added (a), updated (u), removed (r)
      aff      ids of the items whose (key, id, value) changed, from the driver's own in-order walk of the
               node repository before/after the call (<<-2>>: not observed); narrows the choice of the
               item a Remove takes when several have the same key.  Contents are compared in full by the
@@ -50,8 +51,21 @@ Rng(s) == {s[i] : i \in 1..Len(s)}
 \* the one item the call changed, as a hint for the actions' choices (-3: none or several: matches no item)
 A1 == IF E.aff = <<-2>> THEN -2 ELSE IF Len(E.aff) = 1 THEN E.aff[1] ELSE -3
 
+\* what the B-tree told its ItemActionTracker during the call (the transaction layer locks, writes, deletes and
+\* replays exactly these items): removals and additions are exactly the ids that left / entered the contents, every
+\* item whose key or value changed was reported as updated, and nothing else was reported as changed
+IdsOf(s) == {s[i].id : i \in 1..Len(s)}
+TrkAgrees ==
+  LET before == IdsOf(items)  after == IdsOf(items') IN
+  /\ Rng(E.trk.r) = before \ after
+  /\ Rng(E.trk.a) = after \ before
+  /\ Rng(E.trk.u) \subseteq (before \cap after)
+  /\ \A i \in 1..Len(items), j \in 1..Len(items') :
+        (items[i].id = items'[j].id /\ (items[i].k # items'[j].k \/ items[i].v # items'[j].v)) => items[i].id \in Rng(E.trk.u)
+
 \* the post-state agrees with what the driver observed after the call (contents: see TObserve)
 Post == /\ E.sane = TRUE
+        /\ TrkAgrees
         /\ Len(items') = E.cnt
         /\ (E.tc # -2 => TrueCur' = E.tc)
         /\ CurView' = <<E.ck, E.cid>>
